@@ -22,10 +22,10 @@ def range_offset(ctx, rule):
             writes.append((bi, si, q.shape(body.expr_of_rvalue(s["rv"]), roles)))
     ctx.check(len(writes) == 1, rule, fn, "offset:one-write", "the range offset is written at exactly one place", detail=str(writes))
     for bi, si, sh in writes:
-        ctx.check(sh in ("Sub(arg3,Token::get_dst_col(token))", "u32::saturating_sub(arg3,Token::get_dst_col(token))", "u32::wrapping_sub(arg3,Token::get_dst_col(token))"), rule, fn, "offset:value",
+        ctx.check(sh in ("Sub(arg3,token.raw.dst_col)", "u32::saturating_sub(arg3,token.raw.dst_col)", "u32::wrapping_sub(arg3,token.raw.dst_col)"), rule, fn, "offset:value",
                   "the offset is the query column minus the token's generated column", ctx.site(body, bi, si), detail=sh)
-        ctx.check(has_fact(body, bi, roles, ("true", "Token::is_range(token)", None)), rule, fn, "offset:is_range", "the offset is applied only to range tokens", ctx.site(body, bi, si))
-        ctx.check(has_fact(body, bi, roles, ("Eq", "Token::get_dst_line(token)", "arg2"), ("Eq", "arg2", "Token::get_dst_line(token)")), rule, fn, "offset:same-line",
+        ctx.check(has_fact(body, bi, roles, ("true", "token.raw.is_range", None)), rule, fn, "offset:is_range", "the offset is applied only to range tokens", ctx.site(body, bi, si))
+        ctx.check(has_fact(body, bi, roles, ("Eq", "token.raw.dst_line", "arg2"), ("Eq", "arg2", "token.raw.dst_line")), rule, fn, "offset:same-line",
                   "the offset is applied only when the lookup is on the token's own generated line (a token reached from a later line reports its own position)", ctx.site(body, bi, si))
     init = [sh for sh, site, _ in q.def_shapes(body, T, roles)]
     ctx.check(len(init) == 1 and init[0].endswith(",offset:0}"), rule, fn, "offset:init-0", "the Token starts with offset 0 (non-range tokens report their own column)", detail=str(init)[:300])
